@@ -8,8 +8,10 @@
  *     Teletext packets (one vbi_decode() of one sliced line each): page headers of every
  *       class packet.c distinguishes (100 erase/no erase/serial/subpages/newsflash..., 1F0 BTT,
  *       1FD MIP, 1FE MOT, 1E7 trigger, hex data pages 16A/16B/17A..17E whose function the MIP/BTT
- *       letters set, 1FF/8FF filler, other magazines, Hamming damaged header fields), rows of
- *       every page function (LOP text/attributes/bad parity, MIP, MOT, BTT, AIT, MPT, MPT-EX,
+ *       letters set, hex DISPLAYABLE pages 10A/12F/18A/18B which MIP rows 9/11 list as normal /
+ *       subtitle pages, 1FF/8FF filler, other magazines, Hamming damaged header fields), rows of
+ *       every page function (LOP text/attributes/bad parity, MIP rows 1/9/11/15, MOT, BTT page
+ *       tables with block pages / with groups but no block page / subtitles, AIT, MPT, MPT-EX,
  *       POP pointer and triplet rows, DRCS, EACEM trigger strings), X/26 designations 0,1,2,15,
  *       X/27/0,4, X/28/0,1,3,4, M/29/0,1,4, 8/30 format 1 and 2, IDL;
  *     Caption: every control code class of caption_command() on both fields and channels, PACs,
@@ -28,10 +30,15 @@
  *       backward (visit counting progress callback).
  *   The layers are explored separately to depth D with canonical state de-duplication, then a
  *   cross layer alphabet (a selection of every layer) and "read" layers which start from
- *   populated decoders (Level 2.5 page with MOT/POP/DRCS, TOP, caption).
+ *   populated decoders (Level 2.5 page with MOT/POP/DRCS, TOP, TOP recognised without any
+ *   block page + a page with a hexadecimal number, caption).
  *
  *   Byte exhaustive single steps (pool): every STORYLINE is a well formed transmission (the
- *   Level 2.5 page, TOP, MIP classification + DRCS store path, trigger page, subpages, 8/30 ...).
+ *   Level 2.5 page, TOP, MIP classification + DRCS store path, trigger page, subpages, 8/30 ...;
+ *   seed C01 round 5 added three TOP storylines whose displayable pages have hexadecimal numbers:
+ *   BTT packet 21 only / page table without block page / complete table - the page walks of the
+ *   formatter start from a number no table of decimal pages contains).  Every storyline is also
+ *   run in every order of its page transmissions (phase storyline-orders).
  *   For every packet of every storyline - i.e. for every base packet in the reachable state its
  *   prefix produces - each of the 42 bytes is replaced by each of the 256 values; the rest of
  *   the storyline follows, then every cached page is fetched at Level 3.5 and 1.5, links
@@ -45,7 +52,8 @@
  *   - UBSan shift / signed overflow / division / float cast, built RECOVERABLE (harness/C01.mk):
  *     every report arrives in __ubsan_on_report() and becomes one violation per source location
  *     "ubsan <kind> at src/<file>:<line>"; execution continues, so a known UB site masks nothing;
- *   - hang: per case watchdog (>= 20 s, re-run alone x5 by the engine);
+ *   - hang: per case watchdog (>= 20 s, the first one re-run alone x5 by the engine): key
+ *     "<API entry point> crash=hang>100s", e.g. vbi_fetch_vt_page for the navigation bar walk;
  *   - release at delete: malloc/calloc/realloc/free of the library are wrapped; every block the
  *     library allocated between vbi_decoder_new() and the end of vbi_decoder_delete() (+ deletion
  *     of export/search objects) must be free again: "leak: block allocated in <function> ...";
